@@ -1237,4 +1237,41 @@ theorem top_agree (m : Mode) (hne : m.ext = false) (hnf : m.filenames = false) (
               intro b s
               rw [matches_chr_iff]; simp [GDen]
 
+/-! ### glue for the property file -/
+
+theorem regexpOf_entire {m : Mode} (he : m.entire = true) (p : Str) :
+    regexpOf m p =
+      match topLoop m p.length (p.length + 1) 0 p with
+      | .error e => .error e
+      | .ok (body, negs) =>
+        if negs.isEmpty then
+          .ok { plain := false, nocase := m.nocase, shortest := m.shortest, entire := m.entire, body := body }
+        else .error (.negExt negs) := by
+  unfold regexpOf
+  simp [he]
+  rfl
+
+def okTop : Except Err Top → Option Top
+  | .ok t => some t
+  | .error _ => none
+
+def errOf : Except Err Top → Option Err
+  | .ok _ => none
+  | .error e => some e
+
+def isPanic : MRes → Bool
+  | .panic => true
+  | _ => false
+
+theorem eq_ok_of_okTop {r : Except Err Top} {t : Top} (h : okTop r = some t) : r = .ok t := by
+  cases r with
+  | ok t' => simp [okTop] at h; rw [h]
+  | error e => simp [okTop] at h
+
+theorem eq_error_of_errOf {r : Except Err Top} {e : Err} (h : errOf r = some e) : r = .error e := by
+  cases r with
+  | ok t' => simp [errOf] at h
+  | error e' => simp [errOf] at h; rw [h]
+
+
 end ShVerif.L3
